@@ -1173,7 +1173,7 @@ func (r *runner) sameTypeInOrder(rng *rand.Rand) {
 	}
 	defer s.cEnd.Close()
 	defer s.p.conn.Close()
-	kind := []string{"SEARCH", "LIST", "NAMESPACE", "STATUS-same-mailbox"}[rng.Intn(4)]
+	kind := []string{"SEARCH", "LIST", "NAMESPACE", "STATUS-same-mailbox", "ESEARCH-any-order", "ESEARCH-any-order"}[rng.Intn(6)]
 	r.class = "same-type-in-order/" + kind
 	n := 2 + rng.Intn(3)
 	type one struct {
@@ -1207,6 +1207,13 @@ func (r *runner) sameTypeInOrder(rng *rand.Rand) {
 		switch kind {
 		case "SEARCH":
 			o = issue(func() interface{} { return s.c.Search(&imap.SearchCriteria{Larger: int64(i + 1)}, nil) })
+		case "ESEARCH-any-order":
+			o = issue(func() interface{} {
+				if i%2 == 0 {
+					return s.c.UIDSearch(&imap.SearchCriteria{Larger: int64(i + 1)}, &imap.SearchOptions{ReturnAll: true, ReturnCount: true})
+				}
+				return s.c.Search(&imap.SearchCriteria{Larger: int64(i + 1)}, &imap.SearchOptions{ReturnAll: true})
+			})
 		case "LIST":
 			o = issue(func() interface{} { return s.c.List("", fmt.Sprintf("p%d*", i), nil) })
 		case "NAMESPACE":
@@ -1226,7 +1233,51 @@ func (r *runner) sameTypeInOrder(rng *rand.Rand) {
 			return
 		}
 	}
+	if kind == "ESEARCH-any-order" {
+		// ESEARCH data names the command it answers (TAG correlator): the server may answer the
+		// searches in any order, also with all the data first and the completions afterwards
+		esearch := func(i int) string {
+			o := cmds[i]
+			var nums []string
+			for q := 0; q < 1+rng.Intn(4); q++ {
+				v := uint32(10*(i+1) + q)
+				o.sent = append(o.sent, v)
+				nums = append(nums, fmt.Sprint(v))
+			}
+			uid := ""
+			if i%2 == 0 {
+				uid = " UID COUNT " + fmt.Sprint(len(nums))
+			}
+			return fmt.Sprintf("* ESEARCH (TAG \"%s\")%s ALL %s\r\n", o.tag, uid, strings.Join(nums, ","))
+		}
+		order := rng.Perm(n)
+		if rng.Intn(2) == 0 {
+			for _, i := range order {
+				if !r.send(s.p, s.cEnd, esearch(i)) {
+					return
+				}
+				if rng.Intn(3) == 0 && !r.send(s.p, s.cEnd, "* OK still here\r\n") {
+					return
+				}
+			}
+			for _, i := range rng.Perm(n) {
+				if !r.send(s.p, s.cEnd, cmds[i].tag+" OK done\r\n") {
+					return
+				}
+			}
+		} else {
+			for _, i := range order {
+				if !r.send(s.p, s.cEnd, esearch(i)) || !r.send(s.p, s.cEnd, cmds[i].tag+" OK done\r\n") {
+					return
+				}
+			}
+		}
+		r.w.Metric("esearch_any_order_scripts", 1)
+	}
 	for i, o := range cmds {
+		if kind == "ESEARCH-any-order" {
+			break
+		}
 		switch kind {
 		case "SEARCH":
 			line := "* SEARCH"
@@ -1266,7 +1317,13 @@ func (r *runner) sameTypeInOrder(rng *rand.Rand) {
 				d, err := c.Wait()
 				var got []uint32
 				if err == nil && d.All != nil {
-					got = d.AllSeqNums()
+					if us, ok := d.All.(imap.UIDSet); ok {
+						for _, u := range func() []imap.UID { l, _ := us.Nums(); return l }() {
+							got = append(got, uint32(u))
+						}
+					} else {
+						got = d.AllSeqNums()
+					}
 				}
 				if err != nil || u32s(got) != u32s(o.sent) {
 					res <- fmt.Sprintf("SEARCH #%d (%s): delivered %v (err %v), the server sent %v for it", i+1, o.tag, got, err, o.sent)
